@@ -41,11 +41,11 @@ def run_child(path, n, scen, hold_fd=None, timeout=60):
     return p.returncode, p.stdout.decode().strip().splitlines(), p.stderr.decode()[-300:]
 
 
-def start_child_until_dead(path, n, scen, timeout=60):
+def start_child_until_dead(path, n, scen, timeout=60, hold=0.0):
     """Start the child and wait until it is dead *without reaping it*: while the probes run its pid still
     exists (a zombie), as it does for any parent that has not called wait() yet."""
-    p = subprocess.Popen([PY, '-m', 'vf.props.crash_child', path, str(n), scen], env=_env(), cwd=VERIF,
-                         stdout=subprocess.PIPE, stderr=subprocess.PIPE)
+    p = subprocess.Popen([PY, '-m', 'vf.props.crash_child', path, str(n), scen], env=dict(_env(), VERIF_CHILD_HOLD=str(hold)),
+                         cwd=VERIF, stdout=subprocess.PIPE, stderr=subprocess.PIPE)
     t0 = time.time()
     while True:
         try:
@@ -71,7 +71,7 @@ class C13(Check):
         'crash = SIGKILL of the whole process at a source-line event of aiuti/filelock.py (no partial kernel state '
         'beyond what the kernel itself guarantees)',
         '"promptly" is judged logically: the first non-blocking attempt after the kill must succeed; a waiter that was already '
-        'polling must have the lock before it began its 9th pause after the kill',
+        'polling must have the lock before it began its 9th pause after the kill, having asked to pause for at most 9 poll intervals in total (requested, not measured, durations)',
     ]
     rule = ('cases = (scenario, crash point n) for scenarios {blocking acquire/release, with, acquire_ctx, non-blocking, '
             'reentrant nested x2, nested + forced release, timed acquire against a live holder, finite default timeout, '
@@ -167,14 +167,14 @@ class C13(Check):
         res.stats['fresh_process_probes_ok'] += 1
         return True
 
-    def kill_one(self, path, scen, n, res, hold_for_timed=True):
+    def kill_one(self, path, scen, n, res, hold_for_timed=True, hold_s=0.0):
         st = res.stats
         hold = None
         if scen == 'timed_vs_holder':
             hold = os.open(path, os.O_RDWR | os.O_CREAT)
             fcntl.flock(hold, fcntl.LOCK_EX)
         try:
-            proc = start_child_until_dead(path, n, scen)
+            proc = start_child_until_dead(path, n, scen, hold=hold_s)
         finally:
             if hold is not None:
                 os.close(hold)
@@ -340,9 +340,13 @@ class C13(Check):
                 res.inconclusive = 'aiuti.filelock no longer pauses through its `time` module: the waiter\'s steps cannot be counted'
                 return
             killed = []
-            for n in case['ns']:
-                info = self.kill_one(path, scen, n, res)
+            for ki, n in enumerate(case['ns']):
+                # every other holder of each case has had the lock for well over a second when it dies (if it dies holding):
+                # the waiter is then dozens of attempts into its acquire(), not two or three
+                info = self.kill_one(path, scen, n, res, hold_s=1.3 if ki % 2 == 0 else 0.0)
                 td = time.monotonic()
+                if ki % 2 == 0 and info is not None and info['held_kernel_lock']:
+                    st['waiter_had_been_polling_for_over_a_second_when_the_holder_died'] += 1
                 if info is None:
                     continue
                 killed.append(info)
@@ -362,6 +366,18 @@ class C13(Check):
                     if pauses > 8:
                         verdict = ('late', pauses, bool(acq))
                         break
+                    # ... and how long it *asked* to pause (requested durations, not measured ones - load cannot stretch
+                    # them): the pause in progress when the holder died plus those begun afterwards, up to the acquisition,
+                    # may not ask for more than 9 poll intervals in total
+                    allev = events()
+                    before = [e for e in allev if e[0] == 'S' and e[1] <= td]
+                    asked = sum(float(e[2] or 0) for e in ev if e[0] == 'S' and e[1] < upto)
+                    if before and before[-1][1] + float(before[-1][2] or 0) > td \
+                            and not any(e[0] in ('A', 'T') and before[-1][1] < e[1] <= td for e in allev):
+                        asked += float(before[-1][2] or 0)
+                    if asked > 9 * self.WAITER_POLL + 1e-9:
+                        verdict = ('overslept', round(asked / self.WAITER_POLL, 1), bool(acq))
+                        break
                     if acq:
                         verdict = ('prompt', pauses, True)
                         break
@@ -372,6 +388,11 @@ class C13(Check):
                 elif verdict[0] == 'prompt':
                     st['polling_waiter_acquired_promptly_after_kill'] += 1
                     st[f'waiter_pauses_begun_after_death_{verdict[1]}'] += 1
+                elif verdict[0] == 'overslept':
+                    res.violate('C13:waiter-oversleeps', 'a process already waiting with a timeout asked to pause for more than 9 poll '
+                                'intervals in total around / after the death of the holder before taking the (free) lock',
+                                scenario=scen, killed=info, asked_in_poll_intervals=verdict[1], poll_interval=self.WAITER_POLL)
+                    break
                 else:
                     res.violate('C13:waiter-not-prompt', 'a process already waiting with a timeout began more than 8 further pauses after '
                                 'the holder was killed without taking the (free) lock', scenario=scen, killed=info,
@@ -485,7 +506,7 @@ class C13(Check):
         k = 1 if tier == 'quick' else 2
         return {'crash_points_reached': 500, 'killed_while_holding': 150, 'killed_with_lockfile_open_not_locked': 20,
                 'fresh_process_probes_ok': 500, 'survivors_progressed_after_kill': 80 * k,
-                'polling_waiter_acquired_promptly_after_kill': 15 * k, 'worker_of_live_parent_killed': 30}
+                'polling_waiter_acquired_promptly_after_kill': 15 * k, 'waiter_had_been_polling_for_over_a_second_when_the_holder_died': 3 * k, 'worker_of_live_parent_killed': 30}
 
     def extra_evidence(self, tier, agg):
         if self.K is None:
